@@ -159,8 +159,8 @@ theorem keys_values_consistent (σ : Store) (r : Nat) :
       σv.arrs[σ.arrs.length]? = some (ks.map fun k => ((objOf σ r).lookup k).getD .nil) := by
   refine ⟨sortKeys ((objOf σ r).map (·.1)), _, _, rfl, rfl, ?_, ?_, ?_⟩
   · exact List.mergeSort_perm _ _
-  · simp [Store.newArr, objOf]
-  · simp [Store.newArr, objOf]
+  · simp [Store.newArr, objOf, objKeys]
+  · simp [Store.newArr, objOf, objKeys]
 
 /-- an object literal with distinct keys yields exactly its listed properties, in the listed order -/
 theorem literal_distinct_keys_exact {α : Type} (ps : List (Name × α)) (h : (ps.map (·.1)).Nodup) :
